@@ -943,6 +943,49 @@ func vRunCalls(t *testing.T, st *vStats, cfg vConfig) {
 	evMu.Unlock()
 }
 
+// client.Close() while calls are queued but cannot be sent (nobody listens): every call must return
+func vRunCloseUnsent(t *testing.T, st *vStats, seed int64) {
+	ln, err := net.Listen("tcp4", "127.0.0.1:0")
+	if err != nil {
+		t.Fatal(err)
+	}
+	addr := ln.Addr().String()
+	ln.Close() // nobody listens here any more
+	cl := rpc.NewClient(rpc.ClientWithLogf(rpc.NoopLogf))
+	n := 3 + int(seed%5)
+	var wg sync.WaitGroup
+	var returned atomic.Int64
+	for i := 0; i < n; i++ {
+		wg.Add(1)
+		go func(i int) {
+			defer wg.Done()
+			req := cl.GetRequest()
+			req.Body = append(req.Body, vBody(uint64(seed)<<8+uint64(i)+1, 0, 1)...)
+			ctx := context.Background() // no deadline: only Close can make it return
+			if i%2 == 1 {
+				var cancel context.CancelFunc
+				ctx, cancel = context.WithTimeout(ctx, 50*time.Second)
+				defer cancel()
+			}
+			resp, _ := cl.Do(ctx, "tcp4", addr, req)
+			returned.Add(1)
+			if resp != nil {
+				cl.PutResponse(resp)
+			}
+		}(i)
+	}
+	time.Sleep(time.Duration(20+seed%60) * time.Millisecond)
+	_ = cl.Close()
+	done := make(chan struct{})
+	go func() { wg.Wait(); close(done) }()
+	select {
+	case <-done:
+	case <-time.After(30 * time.Second):
+		st.violation("rpc-calls", "pending-call-never-returned", fmt.Sprintf("client.Close() with %d queued (unsent) calls to an unreachable server: only %d returned within 30s", n, returned.Load()), map[string]any{"calls": n, "seed": seed})
+	}
+	st.add("close_unsent_scenarios", 1)
+}
+
 func TestVerifC38(t *testing.T) {
 	seed := int64(vEnvInt("VERIF_SEED", 1))
 	rounds := vEnvInt("VERIF_N", 3)
@@ -963,6 +1006,9 @@ func TestVerifC38(t *testing.T) {
 				}
 			}
 		}
+	}
+	for i := 0; i < 6; i++ {
+		vRunCloseUnsent(t, st, seed*10+int64(i))
 	}
 	st.done("rpc-calls")
 }
@@ -1107,6 +1153,65 @@ func TestVerifC39(t *testing.T) {
 		st.add("max_concurrent_handlers_seen", int(srv.high.Load()))
 		if len(st.samples) < 2 {
 			st.samples = append(st.samples, map[string]any{"W": W, "clients": nClients, "calls": nCalls, "high_water": srv.high.Load(), "mem_while_blocked": m, "mem_limit": lim, "max_mem_sampled": maxMem.Load()})
+		}
+		for _, c := range clients {
+			_ = c.Close()
+		}
+		_ = srv.srv.Close()
+	}
+	// sustained overload without a gate: many connections, pipelined short calls, workers finishing while new
+	// requests arrive (the wake-up path of the worker pool)
+	sustained := vEnvInt("VERIF_SUSTAINED", 3)
+	for round := 0; round < sustained; round++ {
+		r := rand.New(rand.NewSource(seed*991 + int64(round)))
+		W := 1 + r.Intn(3)
+		srv := vStartServer(t, "tcp4", "", rpc.ServerWithMaxWorkers(W))
+		nClients := 6 + r.Intn(8)
+		per := 3 + r.Intn(3)
+		calls := 150
+		clients := make([]rpc.Client, nClients)
+		for i := range clients {
+			clients[i] = rpc.NewClient(rpc.ClientWithLogf(rpc.NoopLogf))
+		}
+		var wg sync.WaitGroup
+		var fails atomic.Int64
+		for c := 0; c < nClients; c++ {
+			for g := 0; g < per; g++ {
+				wg.Add(1)
+				go func(c, g int) {
+					defer wg.Done()
+					cl := clients[c]
+					for i := 0; i < calls; i++ {
+						id := uint64(seed)<<32 + uint64(round)<<24 + uint64(c)<<16 + uint64(g)<<12 + uint64(i) + 1
+						plan := &vCallPlan{ID: id, Kind: 2, SleepUs: 20 + (i*7+g)%200}
+						srv.plans.Store(id, plan)
+						req := cl.GetRequest()
+						req.Body = append(req.Body, vBody(id, 2, i%5)...)
+						ctx, cancel := context.WithTimeout(context.Background(), 60*time.Second)
+						resp, err := cl.Do(ctx, "tcp4", srv.ln.Addr().String(), req)
+						cancel()
+						if err != nil {
+							fails.Add(1)
+						}
+						if resp != nil {
+							cl.PutResponse(resp)
+						}
+					}
+				}(c, g)
+			}
+		}
+		wg.Wait()
+		st.add("sustained_rounds", 1)
+		st.add("sustained_calls", nClients*per*calls)
+		st.dist(fmt.Sprintf("sustained W=%d conns=%d per=%d", W, nClients, per))
+		if h := srv.high.Load(); h > int64(W) {
+			st.violation("rpc-limits", "workers", fmt.Sprintf("sustained overload: %d handlers ran concurrently with a worker limit of %d (%d connections x %d pipelined callers)", h, W, nClients, per), map[string]any{"W": W, "connections": nClients, "per": per})
+		}
+		if cur, total := srv.srv.WorkersPoolSize(); cur > total {
+			st.violation("rpc-limits", "workers", fmt.Sprintf("sustained overload: worker pool reports %d workers created with a limit of %d", cur, total), nil)
+		}
+		if fails.Load() != 0 {
+			st.violation("rpc-limits", "rejected", fmt.Sprintf("sustained overload: %d calls failed instead of waiting", fails.Load()), nil)
 		}
 		for _, c := range clients {
 			_ = c.Close()
